@@ -16,7 +16,7 @@ inductive Cond where
   | notIn (id : String)          -- `not In('id')` (datamodels with negation only)
   | var (v : Nat) (k : Int)      -- `Var<v> == k` (datamodels with variables only)
   | err                          -- an expression whose evaluation raises error.execution
-  deriving Repr, BEq, DecidableEq, Inhabited
+  deriving Repr, DecidableEq, Inhabited
 
 /-- executable content; `elseif`/`else_` are marker children of `ite`, exactly as in the DOM -/
 inductive Exec where
@@ -33,7 +33,7 @@ inductive Exec where
 
 inductive Kind where
   | scxml | state | parallel | final | history | hdeep | initial
-  deriving Repr, BEq, DecidableEq, Inhabited
+  deriving Repr, DecidableEq, Inhabited
 
 structure RawTrans where
   event : Option String
@@ -69,7 +69,7 @@ def Kind.isProper : Kind → Bool
 /-- the engines' classification of a state (`USCXML_STATE_*`) -/
 inductive Typ where
   | atomic | compound | parallel | final | histShallow | histDeep | initial
-  deriving Repr, BEq, DecidableEq, Inhabited
+  deriving Repr, DecidableEq, Inhabited
 
 def Typ.isHistory : Typ → Bool
   | .histShallow | .histDeep => true
